@@ -327,6 +327,17 @@ def restricted_adders(world, f, add_q, double_q, adder_check):
         a = g.node.args
         if g is f or q in known or len(a.posonlyargs + a.args) != 2 or a.vararg or a.kwonlyargs or a.defaults:
             continue
+        # both parameters must be used as points (subscripted or unpacked) — a (point, scalar) routine is not an adder
+        pn = [x.arg for x in a.posonlyargs + a.args]
+        used = set()
+        for n_ in _ast.walk(g.node):
+            if isinstance(n_, _ast.Subscript) and isinstance(n_.value, _ast.Name) and n_.value.id in pn:
+                used.add(n_.value.id)
+            elif isinstance(n_, _ast.Assign) and isinstance(n_.value, _ast.Name) and n_.value.id in pn and \
+                    isinstance(n_.targets[0], (_ast.Tuple, _ast.List)):
+                used.add(n_.value.id)
+        if used != set(pn) or any(isinstance(n_, (_ast.While, _ast.For)) for n_ in _ast.walk(g.node)):
+            continue
         try:
             ok, det = adder_check(g, (0, 1), {}, {})
         except AnalysisError:
